@@ -78,6 +78,16 @@ def table(fl: Flow, keep: Optional[Callable[[str, str], bool]] = None):
     return rets, effs
 
 
+def signature(model: Model, f: FuncInfo, ref_src: Optional[str] = None, want_inline=None) -> tuple:
+    """(returns, effects in program order) of f -- or of the reference source `ref_src` read in f's place -- as canonical text."""
+    if ref_src is not None:
+        fl = flow_of(_ref_func(model, ref_src, f), model)
+    else:
+        fl = flow_of(inline_view(model, f, want_inline) if want_inline is not None else f, model)
+    rets, effs = table(fl)
+    return tuple(rets), tuple((k, s_, c) for k, s_, c, _ in effs)
+
+
 def _is_elem(x: ast.AST) -> bool:
     return isinstance(x, ast.Call) and isinstance(x.func, ast.Name) and x.func.id.startswith("ELEM")
 
